@@ -54,3 +54,15 @@ func VerifCheckAndPropagateArgs(class string, methodT *base.T, args []*base.T) s
 func VerifIsAncestorNode(node, target base.ClassNode) bool {
 	return isAncestorNode(node, target, map[base.ClassNode]bool{})
 }
+
+// VerifCheckUnion exposes checkAndPropagateArgsForUnionWithReturnT in the check round for a receiver that is a union of
+// the given classes (methodTs[i] is the method found for classNames[i]). It answers the error text ("" when accepted).
+func VerifCheckUnion(classNames []string, methodTs []*base.T, args []*base.T) string {
+	m := &MethodEvaluator{method: "m", ctx: context.NewContext("", "", "check"), evaluatedObjectT: base.MakeObject(classNames[0])}
+	m.evaluatedObjectT.SetFrame("Builtin")
+	_, err := checkAndPropagateArgsForUnionWithReturnT(m, classNames, methodTs, args)
+	if err != nil {
+		return err.Error()
+	}
+	return ""
+}
